@@ -8,6 +8,9 @@ E1_NOTE = ("Trusted: the in-memory POSIX directory model (O_EXCL create, atomic 
            "independent decoder model/fmtspec. Bounds: <=4 processes, 1-3 calls each, tiny transactions that all touch one shared ref; "
            "4-process scenarios are preemption-bounded. Outside: Windows semantics, I/O errors, power loss, expiry of the 2.5 s reload deadline.")
 
+E2_NOTE = ("Trusted: model/tablegen (the enumerated families), model/refdb (a map) and model/fmtspec (independent decoder written from the format description; it shares no code with the repository and is itself cross-checked by having to accept every writer output). "
+           "Bounds: families F1-F4 of DESIGN.md 5.1 x the configuration grid (quick: pairwise-covering subset plus every single-dimension variation; thorough: full grid); payload values from small alphabets plus a SHA-256 keystream; tables up to a few hundred records / 8 index levels.")
+
 CHECKS = {}
 
 def check(pid, level, text, note, technique, design, engine, thorough=True):
@@ -44,6 +47,22 @@ check("C06", "fault_enumeration",
       "Process crash only (completed calls persist, no cleanup runs); the POSIX directory model of DESIGN.md 4.1; one sequential survivor (concurrent survivors: crash-as-choice scenario of C05). Power loss / torn writes are outside C06 by its own statement.",
       "exhaustive crash-point enumeration of the real call over the in-memory directory + survivor program against a reference map", "DESIGN.md 4.4, 6/C06", "crashseq")
 
+check("C01", "model_checking",
+      "Small-scope exhaustive enumeration: every table of families F1 (all sorted sets of <=3 refs over a name alphabet rich in prefix relations x every kind vector x update index at both limits; all sets of <=3 log keys x entry/deletion x 4 message shapes), F2 (block structure: 1..120 records x 3 name styles x refs/logs/both) and F3 (fill sweep: every length of a ref name / symref target / compressible and incompressible log message up to the block size) x the configuration grid is written by the real Writer and read back by the real Reader; the scan must equal the normalised input record for record. Inputs the writer rejects are counted, a writer panic is a failure.",
+      E2_NOTE, "bounded-exhaustive enumeration of inputs x configurations against a reference model (every case runs the real writer and reader)", "DESIGN.md 5, 6/C01", "codec")
+check("C02", "model_checking",
+      "For every table of F2/F3 x configurations (index shapes from none to 8 levels, multi-block top levels, a section following an indexed section) every lookup key of every equivalence class (each key, successor, predecessor, proper prefixes, empty, beyond-last; for logs each (name,u) with u in {index, index+-1, 0, max} and absent names) is sought with SeekRef, SeekLog, ReadRef and ReadLogAt; the iteration after each seek must be exactly the suffix of the normalised input at or after the key.",
+      E2_NOTE + " Iteration after a seek is compared to exhaustion for sections of <=16 records and for the first 4 records otherwise.", "bounded-exhaustive enumeration of tables x lookup-key classes against the sorted input (real writer and reader)", "DESIGN.md 5, 6/C02", "codec")
+check("C03", "model_checking",
+      "Every stack of 1..3 tables (4 in the thorough tier) over 3 ref names, and of 1..2 tables over 4 log keys plus 3-table stacks over 2 keys (full 3-table product in the thorough tier), each key per table in {absent, value_i, deletion}, is read through the raw merged view and the stack view with every seek-key class; each result must equal the newest-wins overlay of the reference model (raw view keeps tombstones, stack view drops them), in strictly increasing key order.",
+      E2_NOTE, "bounded-exhaustive enumeration of table stacks x seek keys against the overlay of a reference map", "DESIGN.md 6/C03", "codec")
+check("C11", "model_checking",
+      "Every table of family F4 (object ids sharing prefixes of 0/1/19 bytes so the abbreviation length varies, 1..160 refs, min update index 0 and 5) x {object index, SkipIndexObjects, position lists omitted because they did not fit} x block sizes x both hash sizes x every object id (present, absent, sharing the abbreviation) is queried with RefsFor; and every stack of <=3 tables over 3 names in which each name is absent / points at A / is deleted / points at B with peeled A, through the raw and the stack view. Results must equal the reference filter (live refs whose value or peeled value is the id, once each, name order, same fields as SeekRef).",
+      E2_NOTE, "bounded-exhaustive enumeration of tables/stacks x object ids against the filter of a reference map", "DESIGN.md 6/C11", "codec")
+check("C14", "model_checking",
+      "Every table emitted in the C01 enumeration is decoded by model/fmtspec, an independent validator of the reftable format (header = footer prefix, CRC-32, section positions, block types/lengths/padding, restart tables pointing at full keys, strictly ascending keys, every index level covering all children with their last keys and positions, object-index positions equal to the ref blocks containing each id, update indices inside the header range), and the records it decodes must equal the records given to the writer. Each emitted file is one program validated against its source.",
+      E2_NOTE, "translation validation of every enumerated writer output by an independent format decoder", "DESIGN.md 5.2, 6/C14, Appendix A", "codec")
+
 ALL = [f"C{n:02d}" for n in range(1, 20)]
 NOT_YET = "check not built yet in this working session (design in DESIGN.md section 6); will be claimed once it runs"
 
@@ -60,6 +79,8 @@ manifest = {
     "engines": [
         {"name": "stackmc", "path": "harness/stackmc", "serves_properties": ["C04", "C05", "C08", "C10", "C16"],
          "kind_free_text": "engine E1: in-memory directory + cooperative scheduler owning every filesystem call + deviation-bounded stateless DFS with state cache over the real stack code"},
+        {"name": "codec", "path": "harness/codec", "serves_properties": ["C01", "C02", "C03", "C11", "C14"],
+         "kind_free_text": "engine E2: bounded-exhaustive enumeration of tables, stacks, lookup keys and configurations on the real writer/reader/merged view against reference models"},
         {"name": "crashseq", "path": "harness/crashseq", "serves_properties": ["C06"],
          "kind_free_text": "engine E1 in sequential mode: every filesystem-call boundary of a call is a crash point; survivor program on the real code"},
     ],
